@@ -9,7 +9,8 @@ Extracted structurally (tied to the model by `reflexivity`):
   * RedunBackendDb._get_call_node: the condition of the `current_call_nodes` comprehension
     (subset test alone, or subset test and "own task hash among the rows") -> c_own;
   * Scheduler._resolve_job_main_thread: the `if job.call_hash:` branch, one of two shapes
-    (check_valid-dependent calc_subtree_tasks / always from the backend) -> c_hit_backend;
+    (check_valid-dependent calc_subtree_tasks / always from the backend / from the backend unless the parent job
+    was served from the cache) -> c_hit;
   * CallNodeSerializer.serialize: the keys of the serialised record (the model's import creates
     exactly CallNode, CallEdge and Argument rows and no CallSubtreeTask rows);
   * the default of `db_retries`.
@@ -199,6 +200,14 @@ HIT_FIXED = [
 ]
 
 
+HIT_GUARDED = [
+    "assert job.was_cached",
+    "parent_job = job.parent_job",
+    ast.unparse(ast.parse("if parent_job is not None and not parent_job.was_cached:\n"
+                          "    job.subtree_tasks.update(self._get_subtree_tasks(job))").body[0]),
+]
+
+
 def scheduler_hit(mod):
     fn = find_func(mod, "_resolve_job_main_thread", cls="Scheduler")
     ifs = [n for n in body_nodoc(fn) if isinstance(n, ast.If) and _n(n.test) == "job.call_hash"]
@@ -206,9 +215,11 @@ def scheduler_hit(mod):
         fail("_resolve_job_main_thread: expected exactly one top-level `if job.call_hash:`", fn)
     got = [_n(s) for s in ifs[0].body]
     if got == HIT_SHIPPED:
-        hit = False
+        hit = "HOwn"
     elif got == HIT_FIXED:
-        hit = True
+        hit = "HBackend"
+    elif got == HIT_GUARDED:
+        hit = "HGuarded"
     else:
         fail(f"_resolve_job_main_thread: unrecognised `if job.call_hash:` branch {got}", ifs[0])
     # the else branch (the job ran): subtree_tasks = job.calc_subtree_tasks() is what is passed on
@@ -293,12 +304,14 @@ def extract(db_source=None, sched_source=None, ser_source=None):
 
 
 def variant_of(x):
-    if x["steps"] == SHIPPED_STEPS and not x["own"] and not x["hit"]:
+    if x["steps"] == SHIPPED_STEPS and not x["own"] and x["hit"] == "HOwn":
         return "shipped"
-    if x["steps"] == FIXED_STEPS and x["own"] and x["hit"]:
+    if x["steps"] == FIXED_STEPS and x["own"] and x["hit"] == "HBackend":
         return "fixed"
-    if x["steps"] == SHIPPED_STEPS and x["own"] and x["hit"]:
+    if x["steps"] == SHIPPED_STEPS and x["own"] and x["hit"] == "HBackend":
         return "mixed"
+    if x["steps"] == SHIPPED_STEPS and x["own"] and x["hit"] == "HGuarded":
+        return "guarded"
     return "other"
 
 
@@ -321,7 +334,7 @@ def check_pins(x, pins):
 
 def emit(x, prop: str) -> str:
     v = variant_of(x)
-    target = v if v in ("fixed", "mixed") else "shipped"
+    target = v if v in ("fixed", "mixed", "guarded") else "shipped"
     b = lambda t: "true" if t else "false"
     return f"""(* generated by translate/tr_record.py from redun/backends/db/__init__.py, redun/scheduler.py,
    redun/backends/db/serializers.py -- do not edit *)
@@ -333,13 +346,13 @@ Import ListNotations.
 Definition gen_rcn : list step := [{"; ".join(x["steps"])}].
 (* _get_call_node: own task hash required among the subtree rows *)
 Definition gen_own : bool := {b(x["own"])}.
-(* _resolve_job_main_thread: replayed jobs take their subtree tasks from the backend *)
-Definition gen_hit_backend : bool := {b(x["hit"])}.
+(* _resolve_job_main_thread: where a replayed job takes its subtree tasks from *)
+Definition gen_hit : hitmode := {x["hit"]}.
 (* default of db_retries *)
 Definition gen_retries : nat := {x["retries"]}.
-Definition gen_cfg (R : nat) : cfg := mkcfg gen_rcn gen_own gen_hit_backend R.
+Definition gen_cfg (R : nat) : cfg := mkcfg gen_rcn gen_own gen_hit R.
 
-(* the code is in the `{v}` configuration; the theorems of Props/{prop}.v are about `shipped` and `fixed` *)
+(* the code is in the `{v}` configuration; the theorems of Props/{prop}.v are about `shipped`, `mixed`, `guarded` and `fixed` *)
 Lemma {prop}_tie : forall R, gen_cfg R = {target} R.
 Proof. intros R. reflexivity. Qed.
 """
